@@ -97,10 +97,20 @@ Definition named_step (Sc : fschema) (n : fnode) (nm : bytes) : M fnode :=
 Definition unit_variant_null (Sc : fschema) (n : fnode) (variant : bytes) (by_type : M unit) : M unit :=
   match n with
   | FUnion ks =>
+      (* ... unless the type-directed choice is an enum variant that has this symbol *)
+      let is_symbol_of_enum_variant :=
+        match union_unnamed Sc ks KUnitVariant with
+        | Some (_, k) =>
+            match fnode_at Sc k with
+            | Some (FEnum _ syms) => match symbol_index syms variant with Some _ => true | None => false end
+            | _ => false
+            end
+        | None => false
+        end in
       match union_named Sc ks variant with
       | Some (d, k') =>
           match fnode_at Sc k' with
-          | Some FNull => write_varint d
+          | Some FNull => if is_symbol_of_enum_variant then by_type else write_varint d
           | _ => by_type
           end
       | None => by_type
